@@ -396,6 +396,16 @@ def E_gridgeom(rng, tier):
                         pass
                 g.slice(pts)
                 g.slice(np.zeros((0, 2)))
+                # coordinate arrays that do not have two columns, or not two dimensions
+                for shp in ((1, 1), (3, 1), (50, 1), (7, 3), (4, 0), (5,), (2,), (1,),
+                            (2, 2, 2), (0, 1), (1, 2, 1)):
+                    q = np.linspace(0.1, max(nr, nc, 1) * csz, int(np.prod(shp))
+                                    ).reshape(shp)
+                    for meth in (g.coord2cell, g.slice):
+                        try:
+                            meth(q)
+                        except (ValueError, IndexError, AssertionError, TypeError):
+                            pass
             yield f"{nr}x{nc}|csz={csz}", thunk
     for (nr, nc) in ((1, 1), (2, 2), (6, 7)):
         def t2(nr=nr, nc=nc):
@@ -701,7 +711,12 @@ def E_catchment_fromdict(rng, tier):
     from hydrodiy.gis import grid as g
     for (nr, nc) in ((1, 1), (2, 2), (4, 5)):
         for cells in ([], [0], [0, 1], [nr * nc - 1], list(range(nr * nc)),
-                      [nr * nc], [-1], [2 ** 40]):
+                      [nr * nc], [-1], [2 ** 40],
+                      # valid and invalid cell numbers together (a negative number is
+                      # a legal *python* index into the mask the wrapper builds)
+                      [-1, -2, 0], [0, 1, -1], [-nr * nc, 0], [-nr * nc - 1, 0, 1],
+                      [0, nr * nc], [0, 1, nr * nc + 1], [0, 2 ** 40], [-2 ** 62, 0],
+                      [0, 0, 0], [nr * nc - 1, -1, nr * nc - 1]):
             def thunk(nr=nr, nc=nc, cells=cells):
                 fd = Grid("fd", nc, nr, dtype=np.int64)
                 dic = {"name": "c", "idxcell_outlet": cells[0] if cells else 0,
